@@ -4,7 +4,7 @@ import gens, blk, compcases as cc
 from capi import Lib
 from vlib import Oracle, build_lib, hx, md5
 
-THEOREMS = ["C01_factorisation_decodes", "C01_fast_generic_roundtrip", "C01_fast_extState_roundtrip", "C01_fastReset_history", "C01_initStream_ctx_ok", "C01_compress_then_decompress_safe"]
+THEOREMS = ["C01_factorisation_decodes", "C01_fast_generic_roundtrip", "C01_fast_extState_roundtrip", "C01_fastReset_history", "C01_initStream_ctx_ok", "C01_compress_then_decompress_safe", "C01_hc_mid_history", "C01_hc_mid_fresh_state", "C01_hc_mid_parser"]
 CORRESPONDENCE = ["Model.HcMidApi (LZ4MID_compress + one-shot HC entry points at levels 1-2, LZ4_compress_HC_destSize) == the real functions over call histories on one LZ4_streamHC_t (return value, consumed, bytes, both hash tables, end index, dirty flag after every call)",
                   "Model.FastApi.compress_fast_extState == LZ4_compress_default/_fast/_fast_extState (return value, bytes, context fields, hash table)",
                   "Model.FastApi.compress_fast_extState_fastReset == LZ4_compress_fast_extState_fastReset over call histories on one context (return value, bytes, context fields, hash table after every call)"]
@@ -25,7 +25,7 @@ def gen_cases(tier, seed):
     n = {"quick": 96, "search": 320, "thorough": 800}[tier]
     cases = [{"bseed": rng.randrange(1 << 48), "count": 24, "mode": "mix", "maxn": 70000 if i % 6 == 0 else 3000} for i in range(n)]
     nm = {"quick": 16, "search": 40, "thorough": 120}[tier]
-    cases += [{"bseed": rng.randrange(1 << 48), "count": 10 if i % 8 else 2, "mode": "mid", "maxn": 9000 if i % 8 else 70000} for i in range(nm)]
+    cases += [{"bseed": rng.randrange(1 << 48), "count": 10 if i % 8 else 2, "mode": "hcmid", "maxn": 9000 if i % 8 else 70000} for i in range(nm)]
     if tier == "thorough":
         for a in range(16):
             cases.append({"bseed": a, "mode": "exh", "alpha": "ab", "len": 14, "shard": a, "nshards": 16, "count": 0})
@@ -133,43 +133,22 @@ def history(st, rng, res, info):
             if blk.nontrivial_block(out):
                 res["keys"].add(cc.key_of(src, "fr", acc, cap))
 
-def mid_history(st, rng, res, info, maxn):
-    """HC levels 1-2 (LZ4MID): fast-reset one-shot calls and destSize calls on one LZ4_streamHC_t, model == code after every
-    call (bytes, both hash tables, end index, dirty flag), and every produced block judged by the specification decoder"""
-    calls = []
-    for _ in range(rng.choice([1, 2, 3, 5])):
-        n = rng.choice([0, 1, 5, 12, 13, 14, 20, 100, 1000, 3000, 4096, 9000]) if maxn < 20000 else rng.choice([100, 3000, 20000, 65536 + 40, 70000])
-        if rng.random() < 0.3:
-            n = rng.randrange(0, min(maxn, 9000))
-        kind = rng.choice(gens.KINDS)
-        src = gens.data(rng, kind, n)
-        if calls and rng.random() < 0.5:
-            prev = calls[-1][1]
-            src = (prev[:len(src) // 2] + src)[:n]
-        b = cc.bound(n)
-        if rng.random() < 0.3:
-            calls.append(("ds", src, rng.choice([1, 2, 5, 12, 13, 20, n // 3 + 1, n // 2 + 7, b, rng.randrange(1, b + 2)])))
-        else:
-            calls.append(("fr", src, rng.choice([b, b, b + 5, max(0, b - 1), n // 2 + 4, rng.randrange(0, b + 2)])))
-    level = rng.choice([1, 2])
-    outs = cc.run_mid_session(st, calls, res, info, level=level)
-    for (kind, src, r, consumed, out) in outs:
-        res["stats"]["variant_mid_" + kind] += 1
+def mid_judge(st):
+    def judge(kind, src, cap, r, consumed, out):
+        if r < 0 or r > max(cap, 0):
+            return "returned %d with capacity %d" % (r, cap)
         if r > 0:
             err = blk.decode_checks(st, src[:consumed], out)
             if err:
-                res["fails"].append({"status": "prop_fail", "what": "LZ4MID (level %d, %s) round trip failed: %s" % (level, kind, err),
-                                     "detail": dict(info, sizes=[len(c[1]) for c in calls], caps=[c[2] for c in calls])})
-            if blk.nontrivial_block(out):
-                res["keys"].add(cc.key_of(src, "mid" + kind, level, len(out)))
+                return "round trip failed: " + err
+        return None
+    return judge
 
 def run_case(st, case):
     rng = random.Random(case["bseed"])
     res = cc.new_res()
-    if case["mode"] == "mid":
-        for j in range(case["count"]):
-            mid_history(st, rng, res, {"bseed": case["bseed"], "j": j, "mid": 1}, case["maxn"])
-        return cc.finish(res, "mid")
+    if case["mode"] == "hcmid":
+        return cc.run_mid_case(st, case, mid_judge(st))
     if case["mode"] == "exh":
         alpha = case["alpha"].encode()
         k = 0
